@@ -217,11 +217,15 @@ def aggregation_is_flushed(ctx):
     call = a.methods['__call__']
     adds = [n for n in own_nodes(call.node) if isinstance(n, ast.AugAssign) and dotted(n.target) == 'self._bytes_seen' and isinstance(n.op, ast.Add) and norm(n.value) == call.params[1]]
     trig = [c for c in own_calls(call.node) if (dotted(c.func) or '') == 'self._trigger_callbacks']
-    ok = len(adds) == 1 and not q.guards(adds[0]) and len(trig) == 1 and q.guard_texts(trig[0]) == [('self._bytes_seen >= self._threshold', True)]
+    ok = len(adds) == 1 and not q.guards(adds[0]) and len(trig) == 1 and len(q.guards(trig[0])) == 1 and q.guards_imply(q.guards(trig[0]), 'self._bytes_seen >= self._threshold') \
+        and q.equivalent(q.guards(trig[0])[0][0] if q.guards(trig[0])[0][1] else ast.UnaryOp(op=ast.Not(), operand=q.guards(trig[0])[0][0]), 'self._bytes_seen >= self._threshold')
     ctx.ob(call, '__call__: _bytes_seen += bytes_transferred; deliver at the threshold', ok, 'aggregation must add every amount (negative ones too)')
     fl = a.methods['flush']
     trig = [c for c in own_calls(fl.node) if (dotted(c.func) or '') == 'self._trigger_callbacks']
-    ctx.ob(fl, 'flush: deliver whatever is pending', len(trig) == 1 and q.guard_texts(trig[0]) in ([('self._bytes_seen > 0', True)], [('self._bytes_seen', True)], [('self._bytes_seen != 0', True)]), 'pending progress must be delivered on close')
+    gs_ = q.guards(trig[0]) if len(trig) == 1 else []
+    gexp = (gs_[0][0] if gs_[0][1] else ast.UnaryOp(op=ast.Not(), operand=gs_[0][0])) if len(gs_) == 1 else None
+    ok = gexp is not None and any(q.equivalent(gexp, w) for w in ('self._bytes_seen > 0', 'self._bytes_seen', 'self._bytes_seen != 0'))
+    ctx.ob(fl, 'flush: deliver whatever is pending', ok, 'pending progress must be delivered on close')
     tr = a.methods['_trigger_callbacks']
     cs = [c for c, r in q.calls_in(ctx, tr) if r.kind == 'open']
     rs = [n for n in own_nodes(tr.node) if isinstance(n, ast.Assign) and dotted(n.targets[0]) == 'self._bytes_seen' and norm(n.value) == '0']
